@@ -80,6 +80,30 @@ def parseOps (toks : List String) : Option (List (Nat × Op)) :=
   | "full" :: rest => (parseFull rest).map fun l => l.map fun (i, s) => (i, .snapshot s)
   | _ => none
 
+def stateKind : Option Active → String
+  | none => "U"
+  | some .inFlight => "F"
+  | some (.opn _) => "O"
+  | some (.cancelInFlight none) => "C0"
+  | some (.cancelInFlight (some _)) => "C1"
+
+def inputKind : Op → String
+  | .recOpen _ _ _ _ => "reqOpen"
+  | .recCancel _ => "reqCancel"
+  | .cancelResp _ true => "respOk"
+  | .cancelResp _ false => "respErr"
+  | .snapshot s => match s.state with
+    | .inactive _ => "repFinished"
+    | .active .inFlight => "repInFlight"
+    | .active (.opn o) => if remZero s.quantity o then "repOpenNothingLeft" else "repOpen"
+    | .active (.cancelInFlight _) => "repCancelMarker"
+
+/-- branch tags `% <tracked state>x<input>` for the evidence histogram (not compared) -/
+def tags (e : Engine) (ops : List (Nat × Op)) : List String :=
+  (ops.foldl (fun (acc : Engine × List String) io =>
+    let st := (acc.1[io.1]?).bind fun m => stateOf m io.2.cid
+    (acc.1.apply io.1 io.2, acc.2 ++ [s!"% {stateKind st}x{inputKind io.2}"])) (e, [])).2
+
 def model : Drv Engine where
   init := []
   step e toks :=
@@ -94,7 +118,7 @@ def model : Drv Engine where
       | some ops =>
         if ops.all (fun io => io.1 < e.length) then
           let e' := e.run ops
-          (e', obs e')
+          (e', obs e' ++ tags e ops)
         else (e, ["panic"])
 
 /-- spec state: per instrument, association list cid ↦ the lifecycle states the property allows
